@@ -18,7 +18,7 @@ PermsFor(r) ==
           [i \in 1..r |-> i % r], [i \in 1..r |-> (i + r - 2) % r]}
 
 LastK == IF steps = <<>> THEN "" ELSE steps[Len(steps)].op.k
-NProg == Cardinality({i \in 1..Len(steps) : steps[i].op.k \notin {"New", "Slice"}})
+NProg == Cardinality({i \in 2..Len(steps) : ~(steps[i].op.k = "Slice" /\ i = 2 /\ WithSlice)})
 Targets == IF BothTargets THEN {1, Len(live)} ELSE {Len(live)}
 
 Next ==
@@ -35,6 +35,8 @@ Next ==
             \/ "UT" \in Alphabet /\ Do(Op("UT", h, <<>>))
             \/ "Transpose" \in Alphabet /\ Do(Op("Transpose", h, <<>>))
             \/ "Materialize" \in Alphabet /\ Do(Op("Materialize", h, <<>>))
+            \* the full view (all-nil slice) of the tensor as it stands: the program continues on the view
+            \/ "FullView" \in Alphabet /\ r >= 1 /\ Do(Op("Slice", h, <<SlNil>>))
             \/ "SafeT" \in Alphabet /\ \E p \in PermsFor(r) : Do(Op("SafeT", h, p))
             \/ "RollAxis" \in Alphabet /\ \E ax \in 0..(r - 1), st \in 0..r, sf \in {0, 1} : Do(Op("RollAxis", h, <<ax, st, sf>>))
 
